@@ -269,6 +269,17 @@ def run(pid: str, tier: str, seed: int, *, replay: dict | None = None) -> int:
         vb = tlc.validate_traces("Trace_Worker", "Trace_Worker.cfg", other_tr)
         ck.add_tlc(vb.result, "re-validation of rejected traces without this property's clauses")
         other = {idx[k] for k in vb.rejected}
+        if pid == "C03":
+            # a run that breaks the broker life cycle only when the stop request is injected is a C03
+            # violation (a message lost / duplicated by the shutdown); if the same scenario without the
+            # injection is rejected too, it belongs to the property whose check owns that clause
+            base_of = {}
+            for bi, sc in enumerate(scs):
+                base_of[str({k: v for k, v in sc.items() if k != "stop"})] = bi
+            for i in list(other):
+                bi = base_of.get(str({k: v for k, v in allsc[i].items() if k != "stop"}))
+                if i >= len(scs) and bi is not None and bi not in v.rejected:
+                    other.discard(i)
         for i in list(other)[:10]:
             ck.drift.append({"note": "rejected for a reason outside this property's clauses (see the owning property's check)",
                              "scenario": allsc[i], "at": explain(traces[i], vb.rejected[idx.index(i)], 4)})
